@@ -187,11 +187,15 @@ func genC08(tier string, seed int64) (*Family, error) {
 		pool := append(append([]string{}, names[:n]...), "x", "y")
 		var lists [][]string
 		var rec func(cur []string, from int)
+		lim := maxInc
+		if n == 3 && lim > 2 {
+			lim = 2 // three rules per call only over containers of <= 2 rules (path count)
+		}
 		rec = func(cur []string, from int) {
 			if len(cur) > 0 {
 				lists = append(lists, append([]string{}, cur...))
 			}
-			if len(cur) == maxInc {
+			if len(cur) == lim {
 				return
 			}
 			for k := from; k < len(pool); k++ {
